@@ -148,7 +148,20 @@ class ColumnBackend(ArraySchemaBackend):
                         return_check_obj=True,
                     )
                     if schema.parsers and validated_column is not None:
-                        check_obj[column_name] = validated_column
+                        # the label is repeated: write back by position
+                        pos = [
+                            k
+                            for k, c in enumerate(check_obj.columns)
+                            if c == column_name
+                        ][i]
+                        check_obj.isetitem(
+                            pos,
+                            (
+                                validated_column
+                                if is_field(validated_column)
+                                else validated_column.iloc[:, 0]
+                            ),
+                        )
             else:
                 if getattr(schema, "drop_invalid_rows", False):
                     # replace the check_obj with the validated
